@@ -38,6 +38,14 @@ pub struct Spec {
     pub callers: usize,
     #[serde(default)]
     pub steps: Vec<(usize, usize, usize)>,
+    /// path "interleaved": (pipeline, kind) — the published text of that pipeline is corrupted by the
+    /// harness before its validate/parse tasks run (a garbled message); that pipeline is not judged,
+    /// every other pipeline must be unaffected
+    #[serde(default)]
+    pub poison: Option<(usize, u8)>,
+    /// path "interleaved": pipelines that run a second pass over the SAME dataflow Message
+    #[serde(default)]
+    pub second_pass: Vec<usize>,
 }
 
 pub struct C15;
@@ -104,11 +112,15 @@ fn run_interleaved(scs: &[scen::Scenario], spec: &Spec, ctx: &Arc<seam::RunCtx>,
     let n = scs.len();
     let mut done = vec![[false; 4]; n];
     let mut failed: Vec<Option<(usize, String)>> = vec![None; n];
-    // the recorded schedule, then whatever is still missing in canonical order
+    let poisoned: Option<usize> = spec.poison.map(|(p, _)| p % n).filter(|_| n > 1);
+    let mut passes_left: Vec<u8> = (0..n).map(|p| if spec.second_pass.iter().any(|x| x % n == p) && Some(p) != poisoned { 1 } else { 0 }).collect();
+    // the recorded schedule, then whatever is still missing in canonical order (twice: second passes)
     let mut steps = spec.steps.clone();
-    for p in 0..n {
-        for t in 0..4 {
-            steps.push((p, t, p));
+    for _ in 0..2 {
+        for p in 0..n {
+            for t in 0..4 {
+                steps.push((p, t, p));
+            }
         }
     }
     let mut seq = 0;
@@ -135,7 +147,36 @@ fn run_interleaved(scs: &[scen::Scenario], spec: &Spec, ctx: &Arc<seam::RunCtx>,
                 out.harness_error = Some(h.to_string());
                 break;
             }
-            failed[p] = Some((t, e));
+            if Some(p) == poisoned {
+                if t >= 2 {
+                    out.count("fault.message.corrupted_text_rejected_by_a_task", 1);
+                }
+            } else {
+                failed[p] = Some((t, e));
+            }
+        }
+        // fault: garble the published text of the poisoned pipeline before anyone reads it
+        if Some(p) == poisoned && t == 1 {
+            let kind = spec.poison.map(|x| x.1).unwrap_or(0);
+            let mut m = msgs[p].lock().unwrap_or_else(|e| e.into_inner());
+            let text = m.data().get("sample_mt").and_then(|v| v.as_str()).unwrap_or("").to_string();
+            let garbled = match kind % 4 {
+                0 => text.chars().take(text.chars().count() * 3 / 5).collect::<String>(),
+                1 => text.replacen(":20:", ":2Z:", 1),
+                2 => text.replacen("{4:\n", "{4:\n:99Z:GARBAGE\n", 1),
+                _ => text.replacen("{2:", "{9:", 1),
+            };
+            if let Some(o) = m.data_mut().as_object_mut() {
+                o.insert("sample_mt".into(), Value::String(garbled));
+            }
+            m.invalidate_context_cache();
+            out.count("fault.message.published_text_corrupted", 1);
+        }
+        // a pipeline that finished its first pass may go round again on the same Message
+        if done[p].iter().all(|d| *d) && passes_left[p] > 0 && failed[p].is_none() {
+            passes_left[p] -= 1;
+            done[p] = [false; 4];
+            out.count("probe.second_pass_over_the_same_message", 1);
         }
     }
     for tx in &cmd_tx {
@@ -157,6 +198,9 @@ fn run_interleaved(scs: &[scen::Scenario], spec: &Spec, ctx: &Arc<seam::RunCtx>,
     }
     let mut texts = vec![];
     for (p, sc) in scs.iter().enumerate() {
+        if Some(p) == poisoned {
+            continue;
+        }
         let mt = format!("MT{}", sc.mt);
         let m = msgs[p].lock().unwrap_or_else(|e| e.into_inner());
         if let Some((t, e)) = &failed[p] {
@@ -427,6 +471,7 @@ impl Engine for C15 {
             _ => "plugin",
         };
         let (mut more_pipelines, mut callers, mut steps) = (vec![], 0, vec![]);
+        let (mut poison, mut second_pass) = (None, vec![]);
         if path == "interleaved" {
             let n = 2 + wl.below(2);
             for _ in 1..n {
@@ -436,6 +481,12 @@ impl Engine for C15 {
             callers = 1 + sched.below(3);
             for _ in 0..(10 * n) {
                 steps.push((sched.below(n), sched.below(4), sched.below(callers)));
+            }
+            if wl.chance(1, 3) {
+                poison = Some((1 + wl.below(n - 1), wl.below(4) as u8));
+            }
+            if wl.chance(1, 3) {
+                second_pass.push(wl.below(n));
             }
         }
         Spec {
@@ -448,6 +499,8 @@ impl Engine for C15 {
             more_pipelines,
             callers,
             steps,
+            poison,
+            second_pass,
         }
     }
 
@@ -504,7 +557,7 @@ impl Engine for C15 {
         let er = out.counters.get("seam.entropy_calls").copied().unwrap_or(0);
         let cr = out.counters.get("seam.clock_reads").copied().unwrap_or(0);
         out.nontrivial = er + cr > 0;
-        out.shape_digest = fnv_str(&format!("{}|{}|{}|{:?}|{:?}", spec.path, spec.scenario, spec.clock.class, spec.more_pipelines, spec.steps));
+        out.shape_digest = fnv_str(&format!("{}|{}|{}|{:?}|{:?}|{:?}|{:?}", spec.path, spec.scenario, spec.clock.class, spec.more_pipelines, spec.steps, spec.poison, spec.second_pass));
         out.log.push(format!(
             "seam entropy_calls={er} clock_reads={cr} last_read={}",
             seam::fmt_ns(ctx.now())
@@ -554,10 +607,22 @@ impl Engine for C15 {
             s.more_pipelines.clear();
             s.steps.clear();
             s.callers = 0;
+            s.poison = None;
+            s.second_pass.clear();
             v.push(s);
             if spec.callers > 1 {
                 let mut s = spec.clone();
                 s.callers = 1;
+                v.push(s);
+            }
+            if spec.poison.is_some() {
+                let mut s = spec.clone();
+                s.poison = None;
+                v.push(s);
+            }
+            if !spec.second_pass.is_empty() {
+                let mut s = spec.clone();
+                s.second_pass.clear();
                 v.push(s);
             }
             if spec.more_pipelines.len() > 1 {
